@@ -157,7 +157,44 @@ def check_readonly_guard(u):
     return obligations, failures, samples
 
 
-CHECKS = {"authz_layer": check_authz_layer, "readonly_guard": check_readonly_guard}
+def check_read_pool(u):
+    """C17: the pool handed out by `pool.read()` is opened read-only: in SplitPool::create the `ro_pool` builder chain
+    contains `.read_only()` and that pool (not the RW one) is passed as the `read` argument of SplitPool::new."""
+    file = u["file"]
+    src, msk, o, c = _fn_body(file, u["fn"], u.get("impl"))
+    body = msk[o:c]
+    obligations = ["read-pool-config-is-read-only", "read-pool-is-passed-as-read-argument"]
+    failures = []
+    m = re.search(r"\blet\s+ro_pool\s*=", body)
+    if not m:
+        raise LostAnchor("`let ro_pool =` not found in %s" % u["fn"])
+    st = o + m.end()
+    j = st
+    while j < c:
+        if msk[j] in "([{":
+            j = match_delim(msk, j)
+        elif msk[j] == ";":
+            break
+        j += 1
+    calls = _chain_calls(src, msk, st, j)
+    names = [n for (n, a, off) in calls]
+    if "read_only" not in names or "create_pool_transform" not in names or names.index("read_only") > names.index("create_pool_transform"):
+        failures.append(("read-pool-config-is-read-only", _line(src, st), "the ro_pool builder chain is %s: no `.read_only()` before the pool is created" % names))
+    # the head of the chain must be a fresh Config::new(..) (a shared config variable could have been built without read_only)
+    head = re.sub(r"\s+", "", src[st:calls[0][2]] if calls else src[st:j])
+    if not re.fullmatch(r"sqlite_pool::Config::new\(path\.as_ref\(\)\)", head + ("" if head.endswith(")") else "")) and not head.startswith("sqlite_pool::Config::new("):
+        failures.append(("read-pool-config-is-read-only", _line(src, st), "ro_pool is not built from a fresh sqlite_pool::Config::new(..): `%s`" % head[:60]))
+    mnew = re.search(r"Self::new\(", body)
+    if not mnew:
+        raise LostAnchor("Self::new( not found")
+    op = o + mnew.end() - 1
+    args = [a.strip() for a in re.sub(r"\s+", " ", src[op + 1:match_delim(msk, op)]).split(",") if a.strip()]
+    if len(args) < 4 or args[2] != "ro_pool" or args[3] != "rw_pool":
+        failures.append(("read-pool-is-passed-as-read-argument", _line(src, op), "Self::new arguments are %s" % args))
+    return obligations, failures, ["%s:%d ro_pool chain %s" % (file, _line(src, st), names)]
+
+
+CHECKS = {"authz_layer": check_authz_layer, "readonly_guard": check_readonly_guard, "read_pool": check_read_pool}
 
 
 def run_unit(prop, u, tier, ctx, here):
